@@ -1,5 +1,7 @@
 package node
 
+import "fmt"
+
 type SymTbl []map[string]int
 
 // STRewriter is a recursive node transformation that resolves local and
@@ -24,6 +26,12 @@ func (f Function) STRewrite(symTbl SymTbl) Type {
 	// assign parameters to scope
 	for i, t := range f.Parameters.Elems {
 		name := t.(Name)
+		if old, ok := scope[string(name)]; ok {
+			// the name is the later parameter; the earlier one keeps its slot
+			// under a key no variable can have, so that the slot count (and
+			// with it the slots of the locals) stays right
+			scope[fmt.Sprintf("%s %d", name, old)] = old
+		}
 		scope[string(name)] = i
 	}
 
